@@ -50,9 +50,7 @@ class Interp(Engine):
                 return self.global_value(r, name, node)
         if name in self.reg.functions or name in self.reg.defs or name in SPEC_BUILTINS or (self.spec_mode and hasattr(self, "sp_" + name)):
             return SpecFn(name)
-        if name in BUILTIN_FUNCS:
-            if name in BUILTIN_CLASSES:
-                return BuiltinV(name)
+        if name in BUILTIN_FUNCS or ("lib:" + name) in self.reg.contracts:
             return BuiltinV(name)
         if name in EXC_BASES or name in ("BaseException",):
             return ClassV(ext=name)
@@ -94,7 +92,12 @@ class Interp(Engine):
     def eval_const(self, expr, mod, node=None):
         """evaluate a module/class-level initialiser as a pure value"""
         saved = (self.spec_mode, self.cur_module)
-        self.spec_mode += 1
+        # a module constant built by instantiating a repo class (UTF8_TEXT = ContentType(...)) is created as a real object
+        is_ctor = isinstance(expr, ast.Call) and isinstance(expr.func, ast.Name) and expr.func.id in mod.classes
+        if is_ctor:
+            self.spec_mode = 0
+        else:
+            self.spec_mode += 1
         self.cur_module = mod
         frames = self.st.frames
         self.st.frames = []
@@ -212,10 +215,33 @@ class Interp(Engine):
 
     def st_If(self, node):
         c = self.truthy(self.ev(node.test), node.test)
+        narrow = self._isinstance_pattern(node.test)
         if self.branch(c, "if L%d" % node.lineno):
+            if narrow and narrow[2]:
+                self._narrow(narrow[0], narrow[1])
             self.exec_block(node.body)
         else:
+            if narrow and not narrow[2]:
+                self._narrow(narrow[0], narrow[1])
             self.exec_block(node.orelse)
+            if narrow and not narrow[2] and not node.orelse:
+                pass
+
+    def _isinstance_pattern(self, test):
+        """(local name, builtin type name, polarity) for `isinstance(x, T)` / `not isinstance(x, T)` on a local variable"""
+        pol = True
+        if isinstance(test, ast.UnaryOp) and isinstance(test.op, ast.Not):
+            pol = False
+            test = test.operand
+        if isinstance(test, ast.Call) and isinstance(test.func, ast.Name) and test.func.id == "isinstance" and len(test.args) == 2 \
+                and isinstance(test.args[0], ast.Name) and isinstance(test.args[1], ast.Name) and test.args[1].id in ("str", "bytes", "int", "dict", "list"):
+            return (test.args[0].id, test.args[1].id, pol)
+        return None
+
+    def _narrow(self, name, tyname):
+        v = self.frame.locals.get(name)
+        if isinstance(v, SV) and parse_tag(v.ty)[0] in (None, "any", "opt"):
+            self.frame.locals[name] = SV(v.term, tyname)
 
     def st_Assign(self, node):
         v = self.ev(node.value)
@@ -472,6 +498,8 @@ class Interp(Engine):
     def assigned_names(self, node):
         names = set()
         for n in ast.walk(node):
+            if isinstance(n, (ast.Yield, ast.YieldFrom)):
+                names.add("_out")
             if isinstance(n, ast.Name) and isinstance(n.ctx, (ast.Store, ast.Del)):
                 names.add(n.id)
             elif isinstance(n, ast.ExceptHandler) and n.name:
@@ -479,6 +507,8 @@ class Interp(Engine):
         return names
 
     def havoc_value(self, v, name):
+        if isinstance(v, PSeq):
+            return PSeq(so.fresh(name, SeqV), v.elem)
         if isinstance(v, SV):
             kind, _ = parse_tag(v.ty)
             if v._b is not None or kind == "bool":
@@ -991,6 +1021,13 @@ class Interp(Engine):
             return self.as_map(a, node) == self.as_map(b, node)
         if isinstance(a, SV) and isinstance(b, SV) and a._b is not None and b._b is not None:
             return a._b == b._b
+        if not self.spec_mode and isinstance(a, SV):
+            ci = self.class_of_tag(a.ty)
+            if ci is not None:
+                k, m = self.repo.find_method(ci, "__eq__")
+                if m is not None and not isinstance(m, tuple):
+                    # a repo class that defines __eq__: `a == b` calls it
+                    return self.truthy(self.call_function(FuncV(m, k.module, k), [a, b], {}, node), node)
         return self.is_same(a, b, node)
 
     def compare(self, op, a, b, node):
@@ -1325,6 +1362,23 @@ class Interp(Engine):
 
     def filter_comprehension(self, node, kind, it):
         self.unsupported(node, "comprehension with filter")
+
+    # ---- generators: executed as producers of a ghost output sequence `_out` (laziness is a separate frame question) ----
+    def ev_Yield(self, node):
+        v = self.ev(node.value) if node.value is not None else SV(Val.none, "none")
+        out = self.frame.locals.get("_out")
+        if not isinstance(out, PSeq):
+            self.unsupported(node, "yield outside a generator frame")
+        self.frame.locals["_out"] = PSeq(z3.Concat(out.seq, z3.Unit(self.to_term(v, node))), out.elem)
+        return SV(Val.none, "none")
+
+    def ev_YieldFrom(self, node):
+        v = self.ev(node.value)
+        out = self.frame.locals.get("_out")
+        if not isinstance(out, PSeq):
+            self.unsupported(node, "yield from outside a generator frame")
+        self.frame.locals["_out"] = PSeq(z3.Concat(out.seq, self.as_seq(v, node)), out.elem)
+        return SV(Val.none, "none")
 
     def ev_Starred(self, node):
         self.unsupported(node, "starred expression")
